@@ -655,76 +655,99 @@ def memory_soak(R):
 
 
 def through_the_udp_sender(R):
-    """Datagrams at the edge of "a byte string" - zero octets, one octet, a lone header -
-    delivered through the library's OWN UDP sender (no sender= seam) on the virtual-time
-    loop: the call ends, with a result or an exception, after at most `retries` datagrams,
-    and the client works for the next request."""
-    import asyncio
-
+    """Datagrams delivered through the library's OWN UDP sender (no sender= seam) on the
+    virtual-time loop, with DEBUG logging off and on: zero octets, one octet, lone headers,
+    deeply nested values, a large valid response.  The call ends - with a result or an
+    exception - after at most `retries` datagrams and within the step budget of the
+    octets it was sent, and the client works for the next request."""
     from puresnmp import Client
     from puresnmp.credentials import V2C
 
-    from .. import vloop
+    from .. import agent as agent_mod
+    from .. import core, vloop
 
     good_db = {K[0]: DB[K[0]]}
-    from .. import agent as agent_mod
-
     agent = agent_mod.Agent(good_db, community=b"public")
-    replies = [b"", b"\x00", b"\x30", b"\x30\x00", b"\x02\x01", b"\x30\x80", b"\x30\x84", b"\xff" * 3, b"\x30\x03\x02\x01\x01"]
-    for junk in replies:
-        for retries in (1, 3):
-            state = {"sent": 0, "junk_until": 40}
 
-            def factory(index, junk=junk, state=state):
-                def script(transport, data):
-                    state["sent"] += 1
-                    if state["sent"] <= state["junk_until"]:
-                        transport.loop.call_later(0.2, transport.deliver, junk, ("192.0.2.1", 161))
-                    else:
-                        good = agent.handle(data)
-                        if good is not None:
-                            transport.loop.call_later(0.2, transport.deliver, good, ("192.0.2.1", 161))
+    def nested(tag, depth, inner=b"\x05\x00"):
+        out = inner
+        for _ in range(depth):
+            out = ber.tlv(tag, out)
+        return out
 
-                return script
+    big_db = {(1, 3, 6, 1, 4, 1, 9, i): ("str", b"y" * 30) for i in range(40)}
+    replies = [b"", b"\x00", b"\x30", b"\x30\x00", b"\x02\x01", b"\x30\x84", b"\xff" * 3, b"\x30\x03\x02\x01\x01",
+               nested(0x04, 300), nested(0x30, 300), nested(0x04, 120, nested(0x30, 120)), nested(0xA2, 250), ber.tlv(0x30, ber.enc_integer(1) + ber.enc_octets(b"public") + nested(0x30, 200))]
+    try:
+        for ji, junk in enumerate(replies):
+            for retries, debug in ((1, False), (3, True), (2, False), (1, True)):
+                if ji < 8 and retries == 2:
+                    continue
+                core.set_debug_logging(debug)
+                state = {"sent": 0, "junk_until": 40, "octets": 0}
 
-            loop = vloop.VLoop(factory)
-            loop.set_exception_handler(lambda l, ctx: None)
-            out = {}
+                def factory(index, junk=junk, state=state):
+                    def script(transport, data):
+                        state["sent"] += 1
+                        if state["sent"] <= state["junk_until"]:
+                            state["octets"] += len(junk)
+                            transport.loop.call_later(0.2, transport.deliver, junk, ("192.0.2.1", 161))
+                        else:
+                            good = agent.handle(data)
+                            if good is not None:
+                                transport.loop.call_later(0.2, transport.deliver, good, ("192.0.2.1", 161))
 
-            async def main():
-                client = Client("192.0.2.1", V2C("public"))
-                client.configure(timeout=1, retries=retries)
+                    return script
+
+                loop = vloop.VLoop(factory)
+                loop.set_exception_handler(lambda l, ctx: None)
+                out = {}
+
+                async def main():
+                    client = Client("192.0.2.1", V2C("public"))
+                    client.configure(timeout=1, retries=retries)
+                    try:
+                        out["first"] = ("ok", await client.get(OID(K[0])))
+                    except Exception as exc:  # noqa: BLE001
+                        out["first"] = ("exc", exc)
+                    out["sent_first"] = state["sent"]
+                    state["junk_until"] = 0  # from now on the device answers properly
+                    try:
+                        out["next"] = ("ok", rig.to_tuple(await client.get(OID(K[0]))))
+                    except Exception as exc:  # noqa: BLE001
+                        out["next"] = ("exc", exc)
+
+                # the loop's own bookkeeping costs steps too: one small-datagram budget per
+                # datagram that may leave, plus the per-octet share of what was delivered
+                allowed = BUDGET_A * (retries + 3) + BUDGET_B * len(junk) * (retries + 1)
                 try:
-                    out["first"] = ("ok", await client.get(OID(K[0])))
-                except Exception as exc:  # noqa: BLE001
-                    out["first"] = ("exc", exc)
-                out["sent_first"] = state["sent"]
-                state["junk_until"] = 0  # from now on the device answers properly
-                try:
-                    out["next"] = ("ok", rig.to_tuple(await client.get(OID(K[0]))))
-                except Exception as exc:  # noqa: BLE001
-                    out["next"] = ("exc", exc)
-
-            try:
-                loop.run_until_complete(main())
-            except vloop.Deadlock:
-                out.setdefault("first", ("deadlock", None))
-            finally:
-                try:
-                    loop.close()
-                except Exception:  # noqa: BLE001
-                    pass
-            R.evaluations += 1
-            R.fingerprints.add("udp-sender/%s/%d" % (junk.hex(), retries))
-            case = {"level": "v2c", "mode": "udp-sender", "fault": "reply %s through send_udp, retries=%d" % (junk.hex() or "(empty)", retries), "pos": 0, "variant": "udp-sender", "datagram": "hex:" + junk.hex(), "len": len(junk)}
-            sent = out.get("sent_first", state["sent"])
-            if out.get("first", ("deadlock",))[0] == "deadlock" or sent > retries:
-                R.violation(case, "a %d-octet reply (%s) through the UDP sender: %d datagrams sent with retries=%d, outcome %r" % (len(junk), junk.hex(), sent, retries, out.get("first")), None)
-                return
-            if out.get("next") != ("ok", DB[K[0]]):
-                R.violation(case, "after a %d-octet reply (%s) the next request on the client gave %r" % (len(junk), junk.hex(), out.get("next")), None)
-                return
-            R.mon["edge_datagrams_through_the_udp_sender"] += 1
+                    kind, val, steps = budget.run_budgeted(lambda: loop.run_until_complete(main()), allowed, light=True)
+                except vloop.Deadlock:
+                    kind, steps = "deadlock", 0
+                finally:
+                    try:
+                        loop.close()
+                    except Exception:  # noqa: BLE001
+                        pass
+                R.evaluations += 1
+                R.fingerprints.add("udp-sender/%d/%d/%s" % (ji, retries, debug))
+                case = {"level": "v2c", "mode": "udp-sender", "fault": "reply #%d (%d octets) through send_udp, retries=%d, DEBUG logging %s" % (ji, len(junk), retries, "on" if debug else "off"), "pos": ji, "variant": "udp-sender", "datagram": "hex:" + junk.hex() if len(junk) <= 4096 else "len:%d" % len(junk), "len": len(junk)}
+                sent = out.get("sent_first", state["sent"])
+                R.notes["udp_sender_max_steps"] = max(R.notes.get("udp_sender_max_steps", 0), steps)
+                if kind == "over":
+                    R.violation(case, "a %d-octet reply through the UDP sender (DEBUG logging %s): more than %d logical steps (still running)" % (len(junk), "on" if debug else "off", allowed), None)
+                    return
+                if kind == "deadlock" or "first" not in out or sent > retries:
+                    R.violation(case, "a %d-octet reply through the UDP sender: %d datagrams sent with retries=%d, outcome %r" % (len(junk), sent, retries, out.get("first", kind)), None)
+                    return
+                if out.get("next") != ("ok", DB[K[0]]):
+                    R.violation(case, "after a %d-octet reply the next request on the client gave %r" % (len(junk), out.get("next")), None)
+                    return
+                R.mon["edge_datagrams_through_the_udp_sender"] += 1
+                if debug:
+                    R.mon["edge_datagrams_through_the_udp_sender_with_debug_logging"] += 1
+    finally:
+        core.set_debug_logging(False)
 
 
 def latched_agents(R):
